@@ -173,7 +173,7 @@ PROPS = {
     "C01": fw([("general", 2500, 60000), ("czcycle", 1500, 40000), ("extsample", 600, 20000)], {"res", "len", "L"}, mech=["LR", "CZ", "SIG", "END", "batch"],
               assumptions=["u64 packet counters are modelled as unbounded naturals (overflow needs 2^64 reported events)",
                            "machines have the shape of the Rust types (13 transition slots); proved for everything the bincode decoder accepts (C11)"]),
-    "C02": fw([("general", 2500, 40000)], {"A", "RP", "G", "res", "len"}, mech=["aP"],
+    "C02": fw([("general", 2500, 40000), ("c02frac", 600, 10000)], {"A", "RP", "G", "res", "len"}, mech=["aP"],
               assumptions=["packet counts below 2^53 (u64 -> f64 conversion exact); u64 counter overflow needs 2^64 events and is not modelled"]),
     "C03": fw([("general", 2500, 40000)], {"A", "RB", "G", "res", "len"}, mech=["aB"],
               assumptions=["the blocked share is the IEEE double the code computes (as_secs_f64 of both durations, one division); the exact-arithmetic reading holds up to that rounding"]),
